@@ -82,8 +82,15 @@ void sc_read(const validfile::VF& vf, const std::string& path, int mode, Outcome
         int64_t total = (int64_t)t.rgs[g].cols[c].entries();
         int64_t sk = cq::column_skip(cr, total / 2 + 1);
         int64_t rem = cq::column_remaining(cr);
-        SIM_CHECK(sk >= 0 && sk <= std::min(total, total / 2 + 1) && rem == total - sk, "alloc.skip_inconsistent", "skip returned %lld, remaining() %lld of %lld", (long long)sk, (long long)rem, (long long)total);
-        if (sk < std::min(total, total / 2 + 1)) out.error_reported = true;
+        int64_t want_sk = std::min(total, total / 2 + 1);
+        // a negative return is the error; a short positive count leaves the cursor where it says (like a short read_batch); but "0 rows skipped"
+        // with rows left is indistinguishable from the end of the column: success reported, effect not that of the fault-free call
+        if (sk < 0) { out.error_reported = true; SIM_CHECK(rem == total, "alloc.skip_inconsistent", "skip failed (%lld) but remaining() moved from %lld to %lld", (long long)sk, (long long)total, (long long)rem); }
+        else {
+            SIM_CHECK(sk <= want_sk && rem == total - sk, "alloc.skip_inconsistent", "skip returned %lld, remaining() %lld of %lld", (long long)sk, (long long)rem, (long long)total);
+            SIM_CHECK(sk > 0 || want_sk == 0, "alloc.skip_failure_reported_as_zero", "skip(%lld) with %lld rows left returned 0 after an allocation failed: the caller cannot tell this from the end of the column", (long long)want_sk, (long long)total);
+            if (sk < want_sk) out.error_reported = true;
+        }
         cq::column_reader_free(cr);
     }
     carquet_column_statistics_t cs; if (!t.rgs.empty() && !t.cols.empty()) { carquet_status_t st = cq::reader_column_statistics(o->r, 0, 0, &cs); if (st != CARQUET_OK) out.error_reported = true; }
